@@ -114,12 +114,12 @@ pub fn gen16(rng: &mut Rng) -> Scn16 {
                         _ => Outcome::Ok,
                     },
                 };
-                Behaviour { lat_ms: *rng.pick(&[0u64, 0, 1, 5]), out, yields: 0 }
+                Behaviour { lat_ms: *rng.pick(&[0u64, 0, 1, 5, 5, 15]), out, yields: 0 }
             })
             .collect();
         reqs.push(ReqSpec { script, gap_ms: *rng.pick(&[0u64, 1, 10, 100]), abandon_after_ms: if rng.chance(1, 8) { Some(*rng.pick(&[0u64, 3, 7, 12, 30])) } else { None } });
     }
-    let observe_at_ms = (0..rng.range(0, 6)).map(|_| rng.below(120)).collect();
+    let observe_at_ms = (0..rng.range(0, 8)).map(|_| rng.below(160)).collect();
     Scn16 { policy, max_attempts, retry_on_reconnect: !rng.chance(1, 5), predicate: rng.chance(1, 2), reqs, observe_at_ms }
 }
 
@@ -128,7 +128,7 @@ pub fn valid16(s: &Scn16) -> bool {
         && s.reqs.len() <= 6
         && s.max_attempts.map(|m| m <= 8).unwrap_or(true)
         && s.reqs.iter().all(|r| !r.script.is_empty() && r.script.len() <= 14 && r.gap_ms <= 1000 && r.abandon_after_ms.map(|a| a <= 200).unwrap_or(true) && r.script.iter().all(|b| b.lat_ms <= 20 && matches!(b.out, Outcome::Ok | Outcome::Err(0) | Outcome::Err(1))))
-        && s.observe_at_ms.len() <= 8
+        && s.observe_at_ms.len() <= 10
         && s.observe_at_ms.iter().all(|t| *t <= 2000)
         && match &s.policy {
             Policy::None => true,
@@ -366,15 +366,16 @@ pub fn run16(s: &Scn16, ctx: &mut RunCtx) -> RunOutput {
             _ => {}
         }
     }
-    // observations during a backoff: not Connected
+    // observations while a reconnectable failure is being handled (during the backoff and while
+    // the retried call is in flight, i.e. until the next attempt of that request has ended):
+    // the published state must not read Connected
     for (r, connected, _) in notes(&log, "observe") {
-        // inside a backoff? = after a reconnectable failure end and before the next call start / request end
         let in_backoff = calls.iter().any(|c| {
             matches!(c.how, Some(EndHow::Err(k)) if !(s.predicate && k != 0))
                 && c.end_seq.map(|e| e < r.seq).unwrap_or(false)
                 && {
-                    // the same request made a later call, and it started after the observation
-                    calls.iter().any(|d| d.req == c.req && d.start_seq > r.seq && d.attempt == c.attempt + 1)
+                    // the same request made a later call which had not ended yet at the observation
+                    calls.iter().any(|d| d.req == c.req && d.attempt == c.attempt + 1 && d.end_seq.map(|e| e > r.seq).unwrap_or(true))
                 }
         });
         if in_backoff {
